@@ -1,6 +1,41 @@
-/- C01 — statements are being added as the proofs land (see DESIGN.md §6). -/
+/-
+  C01 — assignment is a pure, process-independent function of source and inputs.
+  In the model a single call is a function by construction; the theorems are about the two
+  places where purity could be lost: evaluator state across histories (through the C11
+  refinement) and the order / repetition of splitter names (key canonicity).  That CPython
+  adds no per-process entropy is the tie's job (process matrix), not a theorem.
+-/
+import Pyab.Properties.C01_key
+import Pyab.Properties.C11
 namespace Pyab.Properties
+open Pyab Pyab.Spec
 
-theorem C01_placeholder : True := trivial
+/-- a call returns `runText (last accepted text) env` — nothing else about the history matters -/
+theorem C01_call_is_function_of_text (p : Pipeline) (w : SpecWorld) (id : Nat) (env : Env) (t : String)
+    (h : w.get id = some t) :
+    (specStep p w (.call id env)).2 =
+      (match p.runText t env with | .ok o => EvOut.result o | .error e => EvOut.err e) := by
+  simp only [specStep, h]
+  cases p.runText t env <;> rfl
+
+/-- two evaluators that accepted the same text agree on every input -/
+theorem C01_same_text_same_result (p : Pipeline) (w w' : SpecWorld) (id id' : Nat) (env : Env) (t : String)
+    (h : w.get id = some t) (h' : w'.get id' = some t) :
+    (specStep p w (.call id env)).2 = (specStep p w' (.call id' env)).2 := by
+  rw [C01_call_is_function_of_text p w id env t h, C01_call_is_function_of_text p w' id' env t h']
+
+/-- no call changes the result of any later call: a call leaves every evaluator as it was -/
+theorem C01_call_has_no_effect (p : Pipeline) (w : SpecWorld) (id : Nat) (env : Env) (ops : List EvOp) :
+    specHistory p (specStep p w (.call id env)).1 ops = specHistory p w ops := by
+  rw [C11_call_changes_nothing]
+
+/-- **History independence for the code's own pipeline**: along any history (any interleaving of
+    constructions, valid and invalid recompiles and calls over any evaluators, texts with pairwise
+    distinct MD5), the real evaluator model produces exactly the outputs of the "last accepted
+    text" specification, whose calls are pure functions of (text, env) by the lemmas above. -/
+theorem C01_history_independent (ops : List EvOp)
+    (hinj : ∀ t1 ∈ textsOf ops, ∀ t2 ∈ textsOf ops, md5hex t1 = md5hex t2 → t1 = t2) :
+    runHistory Generated.pipeline md5hex [] ops = specHistory Generated.pipeline [] ops :=
+  C11_refinement_repo ops hinj
 
 end Pyab.Properties
